@@ -24,7 +24,7 @@ theorem unique (X : Ctx) (hU : X.U.WF) (hT : X.T.WF) {cc b : Str} {e : Country}
       [x, y] = fmt02 (checkDigits cc b) := by
   have ⟨heT, hcode⟩ := Table.lookup_mem hl
   have hW := hT e heT
-  obtain ⟨l, hps, _, _⟩ := hW.spec
+  obtain ⟨l, _, hps, _, _, _⟩ := hW.spec
   have hAb : allAlnum b = true := by
     have hf' := hf; simp only [fits, hps] at hf'
     exact allAlnum_of_fits_noblank _ _ hf' hb
@@ -50,7 +50,7 @@ theorem from_bban (X : Ctx) (hU : X.U.WF) (hT : X.T.WF) {cc b : Str} {e : Countr
     IBAN.fromBban X cc b false false = .ok (cc ++ fmt02 (checkDigits cc b) ++ b) := by
   have ⟨heT, hcode⟩ := Table.lookup_mem hl
   have hW := hT e heT
-  obtain ⟨l, hps, _, hexp⟩ := hW.spec
+  obtain ⟨l, _, hps, _, _, hexp⟩ := hW.spec
   have hf' := hf
   simp only [fits, hps] at hf'
   have hAb : allAlnum b = true := allAlnum_of_fits_noblank _ _ hf' hb
